@@ -8,7 +8,7 @@
    locally well formed ([mirror_ok]: every struct has the fields its C type declares, a count declared next to an
    array holds the array's length), ANY file database in agreement with the mirror ([file_sync]), ANY path. *)
 From Coq Require Import ZArith List String.
-From CgnsV Require Import Goto GotoProofs Gen_C11.
+From CgnsV Require Import Goto GotoProofs GotoPathProofs Gen_C11.
 Import ListNotations.
 Local Open Scope string_scope.
 Local Open Scope Z_scope.
@@ -160,3 +160,47 @@ Theorem C11_current_code_step : forall root, mirror_ok Gen_C11.structs root ->
   end.
 Proof. exact (step_sound Gen_C11.structs Gen_C11.goto_table C11_table_ok). Qed.
 Print Assumptions C11_current_code_step.
+
+(* ---- cg_gopath: the character loop ---------------------------------------------------------------------------- *)
+(* A path is SPELLED from segments: one or more '/' before each, any number of '/' at the end ([spelled]); admissible
+   segments are non-empty, free of '/', at most 32 characters ([seg_ok]).  For EVERY such path: *)
+(* an absolute path is cg_goto by names below the base the name search finds *)
+Theorem C11_gopath_abs_is_goto : forall tbl w fn k0 base segs t st root fdb nb bases B,
+  seg_ok base -> Forall (fun ks => seg_ok (snd ks)) segs -> lenZ segs <= MAX_DEPTH ->
+  no_terminator (items_of segs) ->
+  get_file w fn = Some (root, fdb) -> get_int root "nbases" = Some nb -> get_ptr root "base" = Some bases ->
+  find_base bases (Z.to_nat nb) 0 base = Some (Some B) ->
+  gopath tbl w fn (spelled ((k0, base) :: segs) t) st = goto tbl w fn B (items_of segs) st.
+Proof. exact gopath_abs_is_goto. Qed.
+Print Assumptions C11_gopath_abs_is_goto.
+
+(* a relative path is cg_gorel by names *)
+Theorem C11_gopath_rel_is_gorel : forall tbl w fn s0 segs t st,
+  seg_ok s0 -> Forall (fun ks => seg_ok (snd ks)) segs -> 1 + lenZ segs <= MAX_DEPTH ->
+  no_terminator ((s0, 0) :: items_of segs) ->
+  gopath tbl w fn (append s0 (spelled segs t)) st = gorel tbl w fn ((s0, 0) :: items_of segs) st.
+Proof. exact gopath_rel_is_gorel. Qed.
+Print Assumptions C11_gopath_rel_is_gorel.
+
+(* the numbers of slashes never matter *)
+Theorem C11_gopath_spelling_irrelevant : forall tbl w fn st k0 k0' base segs segs' t t' root fdb nb bases B,
+  seg_ok base -> Forall (fun ks => seg_ok (snd ks)) segs -> lenZ segs <= MAX_DEPTH ->
+  no_terminator (items_of segs) -> map snd segs' = map snd segs ->
+  get_file w fn = Some (root, fdb) -> get_int root "nbases" = Some nb -> get_ptr root "base" = Some bases ->
+  find_base bases (Z.to_nat nb) 0 base = Some (Some B) ->
+  gopath tbl w fn (spelled ((k0, base) :: segs) t) st = gopath tbl w fn (spelled ((k0', base) :: segs') t') st.
+Proof. exact gopath_spelling_irrelevant. Qed.
+Print Assumptions C11_gopath_spelling_irrelevant.
+
+(* the loop returns exactly the segments; its two error exits *)
+Theorem C11_path_loop_exact : forall segs t fuel n,
+  Forall (fun ks => seg_ok (snd ks)) segs -> n + lenZ segs <= MAX_DEPTH -> (List.length segs < fuel)%nat ->
+  path_loop fuel (spelled segs t) n = inr (items_of segs).
+Proof. exact path_loop_spelled. Qed.
+Print Assumptions C11_path_loop_exact.
+
+Example C11_gopath_nonvacuous :
+  spelled [(0%nat, "Base"); (2%nat, "Zone 1"); (0%nat, "..")] 1 = "/Base///Zone 1/../" /\
+  path_loop 30 "/Base///Zone 1/../" 0 = inr [("Base", 0); ("Zone 1", 0); ("..", 0)] /\
+  seg_ok "Zone 1".
+Proof. exact spelled_example. Qed.
